@@ -26,13 +26,14 @@ import (
 // ---------------------------------------------------------------------------------------------
 
 type cutStream struct {
-	name       string
-	data       []byte   // the full stream
-	tailAt     int      // offset where the recorded log starts (== len(data) when there is none)
-	expected   []string // dumps at the commit boundaries: expected[k] = state + first k logged commits
-	schema     func() *column.Collection
-	sparseCuts bool     // few random cuts (huge stream)
-	whole      [][]byte // huge stream: the serialized commits of the uncut log
+	name                  string
+	data                  []byte   // the full stream
+	tailAt                int      // offset where the recorded log starts (== len(data) when there is none)
+	expected              []string // dumps at the commit boundaries: expected[k] = state + first k logged commits
+	schema                func() *column.Collection
+	sparseCuts            bool     // few random cuts (huge stream)
+	truthFirst, truthLast string   // the primary when the state section was complete / after the last logged commit
+	whole                 [][]byte // huge stream: the serialized commits of the uncut log
 }
 
 type countingWriter struct {
@@ -152,6 +153,7 @@ func buildSnapshotStreamOpt(r *rand.Rand, name string, kind, rowsN, tail int, bi
 	// commits recorded during the snapshot
 	var w countingWriter
 	var logged []streamCommit
+	truthAtState := ""
 	column.VerifSetYield(func(p string) {
 		switch p {
 		case "s:opened":
@@ -169,6 +171,9 @@ func buildSnapshotStreamOpt(r *rand.Rand, name string, kind, rowsN, tail int, bi
 				})
 			}
 		case "s:written":
+			// ground truth, independent of Restore: the collection as it is now is what the state section holds
+			// (every commit so far was made before the first chunk was read)
+			truthAtState = truncDump(c)
 			// capture the commits through a logger installed for the window only
 			for k := 0; k < tail; k++ {
 				o := offs[r.Intn(len(offs))]
@@ -253,6 +258,8 @@ func buildSnapshotStreamOpt(r *rand.Rand, name string, kind, rowsN, tail int, bi
 		cs.expected = append(cs.expected, truncDump(q))
 		q.Close()
 	}
+	// the two ends of the boundary list against the primary itself
+	cs.truthFirst, cs.truthLast = truthAtState, truncDump(c)
 	return cs
 }
 
@@ -383,6 +390,23 @@ func runTrunc(rep *Report, replay string) {
 		_, plainTail, _ := parseS2(cs.data[cs.tailAt:])
 		if !ok {
 			rep.Notes = append(rep.Notes, cs.name+": cannot parse the s2 framing of the recorded log")
+		}
+		// the boundary states themselves: restoring the complete state section / the complete file must give the
+		// primary as it was (ground truth taken from the primary, not through Restore)
+		if len(cs.expected) > 0 {
+			for _, e := range []struct{ got, want, what string }{
+				{cs.expected[0], cs.truthFirst, "the complete state section (no logged commit)"},
+				{cs.expected[len(cs.expected)-1], cs.truthLast, "the complete file"},
+			} {
+				if e.want != "" && e.got != e.want {
+					v := Violation{Property: rep.Property, Kind: "oracle", Clause: fmt.Sprintf("[%s] restoring %s does not reproduce the collection: restored %s, original %s", cs.name, e.what, clip(e.got, 200), clip(e.want, 200)),
+						Script: []string{"stream " + cs.name, "cut " + e.what}}
+					if len(rep.Violations) < 5 {
+						writeReplay(rep.Property, "trunc", &v)
+						rep.Violations = append(rep.Violations, v)
+					}
+				}
+			}
 		}
 		// cuts: every byte in the thorough tier; frame boundaries ± 2 and a random sample otherwise
 		cuts := map[int]bool{}
